@@ -227,7 +227,9 @@ def s7_generation_guard(C, rep, rid):
                             if x[0] == "call" and x[1] in ("std::option::Option::unwrap_or", "std::option::Option::unwrap_or_default") and x[2]:
                                 x = x[2][0]
                             cands += list(alts(x))
-                        ok = bool(cands)
+                        ok = bool(cands) and not all(x[0] == "agg" and x[2] == "None" for x in cands)
+                        if cands and not ok:
+                            why = "None on every path (" + why + ")"
                         for x in cands:
                             if x[0] == "agg" and x[2] == "None":
                                 continue                        # "no generation known" (the fallback applies)
@@ -413,6 +415,14 @@ def w4_fetch_mapping(C, rep, rid):
                     onnone = any(c.kind == "enum" and t == ("None",) for c, t in conds)
                     rep.ob(rid, onnone, info["root"], "Free is reported only when no entry is listed", where=site[2], how="None arm of the listing's first element",
                            detail="" if onnone else "fetch_payment_info reports Free on a path that is not 'no entry'")
+                    # ... and "no entry" is decided on an element that exists whenever the listing is non-empty: the listing for the exact state
+                    # key has at most one entry, so first/last/next/nth(0)/get(0)/pop select it; nth(k>0)/skip(k) always see `None`
+                    for c, t in conds:
+                        if c.kind == "enum" and t == ("None",) and c.place is not None:
+                            sel = strip(X.place(b, c.place)) if hasattr(X, "place") else None
+                            bad = _skipping_selection(sel)
+                            rep.ob(rid, not bad, info["root"], "the entry looked at is the one the listing returns", where=site[2], how=(bad or "first/only element"),
+                                   detail="" if not bad else "the listed state entry is skipped (%s): every hash reads back as Free" % bad)
                 else:
                     rep.ob(rid, False, info["root"], "fetch result", where=p[4][2], detail="fetch_payment_info fabricates state %s" % p[2])
             elif p[0] == "call":
@@ -436,6 +446,20 @@ def w4_fetch_mapping(C, rep, rid):
                             kk = key_kind(F, X, y)
             ok = kk is not None and kk[0] == "state"
             rep.ob(rid, ok, info["root"], "reads the state key", where=rd.loc, how=str(kk[0] if kk else None), detail="" if ok else "fetch_payment_info lists key kind %s" % (kk[0] if kk else None))
+
+
+def _skipping_selection(e):
+    """returns a description when the selection expression e skips leading elements of the listing (nth(k!=0), skip(k!=0), get(k!=0))"""
+    if e is None:
+        return None
+    for x in walk(e):
+        if x[0] == "call" and x[2]:
+            nm = x[1]
+            if nm.endswith("Iterator::nth") or nm.endswith("Iterator::skip") or nm.endswith("::get") and "slice" in nm or nm.endswith("Iterator::step_by"):
+                k = strip(x[2][-1])
+                if not (k[0] == "const" and str(k[1]).split("_")[0] in ("0", "0usize")) and not (nm.endswith("step_by")):
+                    return "%s(%s)" % (nm.split("::")[-1], show(k)[:20])
+    return None
 
 
 def _check_variant_mapping(F, X, rep, rid, callexpr):
